@@ -42,6 +42,7 @@ type Env struct {
 	leafMu sync.Mutex
 	ends   map[uint64]bool // window ends claimed by any v1 contract of this env (all forks, pool included)
 	leaves map[types.Hash256][64]byte
+	files  map[types.Hash256]File
 }
 
 // Actor names.
